@@ -267,6 +267,11 @@ func GenComment(t *rapid.T, p *Profile, pools *Pools, allowTags bool) *m.Comment
 			c.Items = append(c.Items, m.CItem{Text: rapid.SampledFrom(texts).Draw(t, "ct")})
 		}
 	}
+	for i := range c.Items {
+		if c.Items[i].Tag && c.Items[i].Value != "" && !p.off("tag.blank-before-value") && rapid.IntRange(0, 3).Draw(t, "vsep") == 0 {
+			c.Items[i].VSep = rapid.SampledFrom([]string{" ", "  "}).Draw(t, "vsepv")
+		}
+	}
 	// a tag value runs to the next comma, so it may itself contain the "name:" of a later tag
 	if !p.off("tag.value-names-later-tag") {
 		for i := 0; i < len(c.Items); i++ {
